@@ -445,9 +445,9 @@ class Gen:
         elif fn == "dens":
             for k in ("st", "ft"):
                 if p[k]:
-                    p[k] = [p[k][0] + r.choice([0, 1, 2]), p[k][1]]
+                    p[k] = [p[k][0] + r.choice([0, 1, 2, 3, 5]), p[k][1]]      # (also across zero, to a larger magnitude)
                 elif r.random() < 0.5:
-                    p[k] = r.choice([[-2, 1], [-1, 1], [0, 1], [1, 2]])
+                    p[k] = r.choice([[-2, 1], [-1, 1], [0, 1], [1, 2], [3, 1]])
         return d
 
     def derive(self, c, kind):
